@@ -1,13 +1,126 @@
-import PersimVerif.Model.PNorm
-import PersimVerif.Model.PLBase
+import PersimVerif.Lemmas.PNormSup
+import Mathlib.Analysis.SpecialFunctions.Pow.Real
+import Mathlib.Tactic.NormNum
 
+/-!
+# C10 — landscape p-norms and sup-norm equal the integrals they name
+
+All statements are about `PersimVerif.PNorm` (the model of `_p_norm`, `p_norm`, `sup_norm` of
+`persim/landscapes/{auxiliary,base,exact,approximate}.py`) instantiated at `ℝ`, with `evalPL` of
+`Model/PLBase.lean` as the piecewise-linear function a list of critical points represents.
+Natural `p` only; nothing here is about floating point.  Guard used throughout: strictly increasing
+abscissae (`StrictAbsc`), the class invariant of both landscape classes (`wellFormed` implies it).
+-/
 namespace PersimVerif.C10
-open PersimVerif.PNorm
+open PersimVerif.PNorm PersimVerif.PL PersimVerif.PNormLemmas intervalIntegral MeasureTheory
 
-/-- regression witness (exact rationals): the pre-fix formula gives 2/3, the fixed one 4/3 -/
-theorem old_crossing_counterexample_rat :
-    pNormPowOld (α := Rat) 2 [[(0,0),(1,1),(3,-1),(4,0)]] = 2/3 ∧
-    pNormPow (α := Rat) 2 [[(0,0),(1,1),(3,-1),(4,0)]] = 4/3 := by
-  decide +kernel
+noncomputable section
 
+/-! ### one segment -/
+
+/-- **segment_integral**: for `x0 < x1` the term the model adds for the segment `(x0,y0)–(x1,y1)` is
+    `∫ |line|^p` over it — whichever of the three branches (flat / sign-crossing / one-signed of either
+    sign) computes it. -/
+theorem segment_integral (p : ℕ) (x0 y0 x1 y1 : ℝ) (hx : x0 < x1) :
+    segTermNat p x0 y0 x1 y1 = ∫ t in x0..x1, |y0 + (y1 - y0) * (t - x0) / (x1 - x0)| ^ p :=
+  segTermNat_eq_integral p x0 y0 x1 y1 hx
+
+/-- flat branch in closed form -/
+theorem segment_integral_flat (p : ℕ) (x0 y x1 : ℝ) :
+    segTermNat p x0 y x1 y = |y| ^ p * (x1 - x0) := segTermNat_flat p x0 y x1
+
+/-- sign-crossing branch in closed form (`y0 y1 < 0`): both triangles are added -/
+theorem segment_integral_crossing (p : ℕ) (x0 y0 x1 y1 : ℝ) (hx : x0 < x1) (hc : y0 * y1 < 0) :
+    segTermNat p x0 y0 x1 y1
+      = (x1 - x0) * (|y0| ^ (p + 1) + |y1| ^ (p + 1)) / ((|y0| + |y1|) * (p + 1)) := by
+  have hcr : crossing y0 y1 := by
+    rcases mul_neg_iff.mp hc with ⟨h0, h1⟩ | ⟨h0, h1⟩
+    · exact Or.inr ⟨h0, h1⟩
+    · exact Or.inl ⟨h0, h1⟩
+  have hd : 0 < x1 - x0 := sub_pos.mpr hx
+  rw [segTermNat_cross p x0 y0 x1 y1 hx.ne hcr, abs_div, abs_of_pos hd]
+  have hsum : |y1 - y0| = |y0| + |y1| := by
+    rcases hcr with ⟨h0, h1⟩ | ⟨h0, h1⟩
+    · rw [abs_of_neg h0, abs_of_pos h1, abs_of_pos (by linarith)]; ring
+    · rw [abs_of_pos h0, abs_of_neg h1, abs_of_neg (by linarith)]; ring
+  have hpos : 0 < |y0| + |y1| := by
+    have : y0 ≠ 0 := by rintro rfl; simp at hc
+    have := abs_pos.mpr this
+    have := abs_nonneg y1
+    linarith
+  rw [hsum]
+  field_simp
+  ring
+
+/-- one-signed, non-flat branch in closed form (either sign) -/
+theorem segment_integral_one_signed (p : ℕ) (x0 y0 x1 y1 : ℝ) (hy : y0 ≠ y1) (hs : 0 ≤ y0 * y1) :
+    segTermNat p x0 y0 x1 y1
+      = (x1 - x0) * ((|y1| ^ (p + 1) - |y0| ^ (p + 1)) / (|y1| - |y0|)) / (p + 1) := by
+  apply segTermNat_oneSigned p x0 y0 x1 y1 hy
+  rintro (⟨h0, h1⟩ | ⟨h0, h1⟩)
+  · have := mul_neg_of_neg_of_pos h0 h1; linarith
+  · have := mul_neg_of_pos_of_neg h0 h1; linarith
+
+/-- how the code's `-expm1((p+1)·log r)` enters the natural-`p` model: it is `1 − r^(p+1)` for `r > 0` -/
+theorem expm1_log_eq (p : ℕ) (r : ℝ) (hr : 0 < r) :
+    -(Real.exp (((p + 1 : ℕ) : ℝ) * Real.log r) - 1) = 1 - r ^ (p + 1) := by
+  rw [mul_comm, Real.exp_mul, Real.exp_log hr, Real.rpow_natCast]; ring
+
+/-! ### a landscape -/
+
+/-- **pnorm_pow_eq_integral** (support form, every natural `p`): the value `_p_norm` accumulates is the
+    sum over depths of `∫ |λ_k|^p` between the first and the last critical abscissa. -/
+theorem pnorm_pow_eq_interval_integral (p : ℕ) (cps : List (List (ℝ × ℝ)))
+    (hs : ∀ l ∈ cps, StrictAbsc l) :
+    pNormPow p cps = (cps.map fun l => ∫ t in firstX l..lastX l, |evalPL l t| ^ p).sum := by
+  rw [pNormPow_eq_sum_segSum]
+  congr 1
+  apply List.map_congr_left
+  intro l hl
+  exact (segSum_eq_integral p l (hs l hl)).2
+
+/-- **pnorm_pow_eq_integral**: for `p ≥ 1` the accumulated value is `Σ_k ∫_ℝ |λ_k(t)|^p dt`
+    (`evalPL` vanishes outside the support).  Hence the norm the code returns is its `p`-th root. -/
+theorem pnorm_pow_eq_integral (p : ℕ) (hp : 1 ≤ p) (cps : List (List (ℝ × ℝ)))
+    (hs : ∀ l ∈ cps, StrictAbsc l) :
+    pNormPow p cps = (cps.map fun l => ∫ t, |evalPL l t| ^ p).sum := by
+  rw [pnorm_pow_eq_interval_integral p cps hs]
+  congr 1
+  apply List.map_congr_left
+  intro l hl
+  exact integral_absPow_eq p hp l (hs l hl)
+
+/-- the same, indexed by depth -/
+theorem pnorm_pow_eq_sum_depths (p : ℕ) (hp : 1 ≤ p) (cps : List (List (ℝ × ℝ)))
+    (hs : ∀ l ∈ cps, StrictAbsc l) :
+    pNormPow p cps = ∑ k ∈ Finset.range cps.length, ∫ t, |evalDepth cps k t| ^ p := by
+  rw [pnorm_pow_eq_integral p hp cps hs]
+  clear hs
+  induction cps with
+  | nil => simp
+  | cons l r ih =>
+    rw [List.length_cons, Finset.sum_range_succ', List.map_cons, List.sum_cons, ih, add_comm]
+    simp [evalDepth]
+
+/-- the value `_p_norm` returns (`root` instantiated with `x ↦ x^(1/p)`) -/
+theorem pnorm_eq_root (p : ℕ) (hp : 1 ≤ p) (cps : List (List (ℝ × ℝ)))
+    (hs : ∀ l ∈ cps, StrictAbsc l) :
+    pNorm (fun r : ℝ => r ^ ((1 : ℝ) / p)) p cps
+      = ((cps.map fun l => ∫ t, |evalPL l t| ^ p).sum) ^ ((1 : ℝ) / p) := by
+  simp only [pNorm, pnorm_pow_eq_integral p hp cps hs]
+
+/-- finiteness/positivity: the accumulated value is a non-negative real -/
+theorem pnorm_pow_nonneg (p : ℕ) (cps : List (List (ℝ × ℝ))) (hs : ∀ l ∈ cps, StrictAbsc l) :
+    0 ≤ pNormPow p cps := by
+  rw [pnorm_pow_eq_interval_integral p cps hs]
+  apply List.sum_nonneg
+  intro x hx
+  obtain ⟨l, hl, rfl⟩ := List.mem_map.mp hx
+  have hle : firstX l ≤ lastX l := by
+    cases l with
+    | nil => simp [firstX, lastX]
+    | cons a r => exact (hs _ hl).le_lastX
+  exact integral_nonneg hle (fun _ _ => pow_nonneg (abs_nonneg _) _)
+
+end
 end PersimVerif.C10
